@@ -17,7 +17,7 @@ RULE = ('L1: 7 crossing configurations (equal/unequal sizes and preambles) x 3 m
         'states = sequences compared on both sides; non-trivial = both sides constructed and >= 2 sequences.')
 ASSUMPTIONS = ['none beyond the law text (differential check); designs with <= CAP sequences']
 BUDGET_S = {'quick': 60, 'thorough': 300}
-CAP = {'quick': 600, 'thorough': 5000}
+CAP = {'quick': 600, 'thorough': 1500}
 
 
 def law_items(tier, seed):
